@@ -30,6 +30,10 @@ def _case(draw, max_ops):
     method = draw(st.sampled_from(['eigen', 'eigen', 'inverse']))
     prediv = draw(st.booleans()) if method == 'eigen' else False
     hp = {k: draw(gens.table_or_const(v)) for k, v in HP_VALUES.items()}
+    for k in ('damping', 'factor_decay', 'kl_clip', 'lr'):
+        if draw(st.integers(0, 7)) == 0:
+            # a callable reading live state that the loop changes between iterations (the optimizer-lr idiom)
+            hp[k] = {'live': draw(st.lists(st.sampled_from(HP_VALUES[k]), min_size=2, max_size=4))}
     consts = [k for k, v in hp.items() if not isinstance(v, dict)]
     sched_keys = draw(st.lists(st.sampled_from(consts), unique=True, max_size=3)) if consts and draw(st.booleans()) else []
     scheduler = {k: {'table': draw(st.lists(st.sampled_from(SCHED_FACTORS[k]), min_size=1, max_size=4))} for k in sched_keys}
@@ -37,7 +41,7 @@ def _case(draw, max_ops):
     in_hook = draw(st.booleans())
     n_ops = draw(st.integers(1, max_ops))
     ops = []
-    kinds = ['train'] * 6 + ['eval', 'reset_batch', 'ckpt'] + (['sched_step'] * 2 if scheduler else [])
+    kinds = ['train'] * 6 + ['eval', 'reset_batch', 'ckpt', 'snapshot', 'rollback'] + (['sched_step'] * 2 if scheduler else [])
     for _ in range(n_ops):
         k = draw(st.sampled_from(kinds))
         if k == 'train':
@@ -66,7 +70,9 @@ class C05(Prop):
             'each of the six hyper-parameters a constant or a lookup table t[step % len] incl. interval pairs that are not multiples, optionally a '
             'LambdaParamScheduler over up to 3 constant parameters with its own factor tables) and a program of 1-20 (quick) / 1-30 (thorough) '
             'operations {train iteration (optionally unequal micro-batch sizes, optionally a mid-iteration reset_batch in no-hook mode followed by '
-            'a full set of micro-batches), eval-mode pass, reset_batch, scheduler.step(), checkpoint round trip into a fresh preconditioner}. The '
+            'a full set of micro-batches), eval-mode pass, reset_batch, scheduler.step(), checkpoint round trip into a fresh preconditioner, '
+            'snapshot = keep state_dict() alive in memory, rollback = load that kept dict into the live preconditioner and restore the weights}; '
+            'damping / decay / clip / lr may also be callables reading live state changed between iterations. The '
             'float64 reference state machine (vkit/refkfac) runs in lock-step from layer inputs/output gradients recorded on a twin model; after '
             'every train iteration: gradients == reference within the conditioning-scaled tolerance, steps == reference counter, factors change '
             '(bit-exact comparison) iff the reference says factor-update step, factors == reference recurrence. Non-trivial: the history contains '
@@ -78,7 +84,7 @@ class C05(Prop):
     examples = {'quick': 250, 'thorough': 600}
     shards = {'quick': 4, 'thorough': 16}
     shrink_budget_s = {'quick': 30.0, 'thorough': 180.0}
-    required_labels = {'quick': ['nontrivial=True', 'stale_step=True', 'has_ckpt=True', 'has_sched=True'],
+    required_labels = {'quick': ['nontrivial=True', 'stale_step=True', 'has_ckpt=True', 'has_sched=True', 'rolled_back=True', 'live_hp=True'],
                        'thorough': ['nontrivial=True', 'stale_step=True', 'has_ckpt=True', 'has_sched=True', 'method=inverse']}
 
     def strategy(self, tier):
@@ -100,6 +106,7 @@ class C05(Prop):
                   'has_sched': bool(case['scheduler']), 'has_ckpt': any(o['op'] == 'ckpt' for o in case['program']),
                   'len': min(len(case['program']) // 5 * 5, 30)}
         hp_seen = []
+        rolled_back = False
         for i, op in enumerate(case['program']):
             k = op['op']
             if k == 'train':
@@ -111,6 +118,12 @@ class C05(Prop):
                 bad = ls.reset_batch()
             elif k == 'sched_step':
                 bad = ls.sched_step()
+            elif k == 'snapshot':
+                bad = ls.snapshot()
+            elif k == 'rollback':
+                if ls.snap is not None and len(ls.events) > ls.snap['at']:
+                    rolled_back = True
+                bad = ls.rollback()
             else:
                 bad = ls.checkpoint_roundtrip(op['compute_inverses'])
             if bad:
@@ -121,7 +134,8 @@ class C05(Prop):
         mixed = any(fu != rf for _, fu, rf, _ in ev)
         changed = any(a != b for a, b in zip(hp_seen, hp_seen[1:]))
         nt = bool(ev) and (stale or mixed or changed) and ls.stats['informative_steps'] > 0
-        labels.update({'nontrivial': nt, 'stale_step': stale, 'mixed_step': mixed, 'hp_changed': changed})
+        labels.update({'nontrivial': nt, 'stale_step': stale, 'mixed_step': mixed, 'hp_changed': changed, 'rolled_back': rolled_back,
+                       'live_hp': any(isinstance(v, dict) and 'live' in v for v in case['hp'].values())})
         return passed(nt, labels, {'worst_grad': ls.stats['worst_grad'], 'worst_factor': ls.stats['worst_factor'], 'steps': len(ev)})
 
 
